@@ -458,8 +458,14 @@ class Path:
         elif op == "call":
             callee = i.callee
             args = [self.ev(a) for a in i.args]
-            if callee and callee.startswith(("llvm.memset.", "llvm.memcpy.", "llvm.memmove.")):
+            if callee and (callee.startswith(("llvm.memset.", "llvm.memcpy.", "llvm.memmove.")) or
+                           (callee in ("memcpy", "memmove", "memset") and len(args) == 3)):
+                # (a freestanding build keeps the libc names instead of the intrinsics: same effect)
                 kind = "memset" if "memset" in callee else "memcpy"
+                if kind == "memset" and args[1][0] == "c":
+                    args[1] = ("c", 8, args[1][2] & 0xff)
+                if not callee.startswith("llvm.") and i.name:
+                    self.env[i.name] = args[0]          # memcpy / memset return their destination
                 ln = args[2]
                 size = ln[2] if ln[0] == "c" else None
                 self.store(args[0], ("memval", kind, args[1], self.seq), None)
